@@ -4,6 +4,7 @@ on the register forms of the VEX-family classes. `evex` forces the EVEX branch o
 needed), `vex3` forces the three-byte VEX prefix, `vex` only matters for instructions that prefer EVEX (excluded: `preferEvex = false`).
 -/
 import AsmjitVerif.Props.C01FrontAbs
+import AsmjitVerif.Props.C01Rows32
 set_option linter.constructorNameAsVariable false
 set_option linter.unusedSimpArgs false
 set_option linter.unusedVariables false
@@ -715,6 +716,384 @@ theorem front_cls_correct_rmi_mem_evexopt (e : Entry) (ch : List Entry) (hch : c
     subst hz
     rw [e0] at hb'
     simpa [r32, zOpt] using hb'
+  · simp at hok
+
+/-! ### 32-bit mode (`options` carries the invalid-REX mark 0x80000000 there): the same option lemmas and theorems -/
+
+theorem emitVexEvexR_branchesO32 (c : Model.X86.Ctx) (opt opcode reg vvvvv rm : BitVec 32) (imm : BitVec 64) (n : Nat)
+    (hopt : opt = 0x80000000#32 ||| oEvex ∨ opt = 0x80000000#32 ||| oVex3 ∨ opt = 0x80000000#32 ||| oVex) (hpe : c.preferEvex = false) (hk : c.extraId = 0#32) :
+    emitVexEvexR c opcode opt (reg + (vvvvv <<< 7)) rm imm n =
+      .ok (if xR opcode opt reg vvvvv rm 0#32 &&& 0x00D78150#32 ≠ 0#32 then
+             le32 (evexWord (xR opcode opt reg vvvvv rm 0#32) opcode) ++ [opcode.truncate 8] ++
+               ([modrmRR (reg + (vvvvv <<< 7)) rm] ++ emitImmByteOrDword imm n)
+           else if vexPrep (xR opcode opt reg vvvvv rm 0#32) opcode opt &&& 0x8000803E#32 ≠ 0#32 then
+             le32 (vex3Word (vexPrep (xR opcode opt reg vvvvv rm 0#32) opcode opt) opcode) ++
+               ([modrmRR (reg + (vvvvv <<< 7)) rm] ++ emitImmByteOrDword imm n)
+           else
+             [0xC5#8, (vex2Byte (vexPrep (xR opcode opt reg vvvvv rm 0#32) opcode opt)).truncate 8, opcode.truncate 8] ++
+               ([modrmRR (reg + (vvvvv <<< 7)) rm] ++ emitImmByteOrDword imm n)) := by
+  have hx : xR opcode opt reg vvvvv rm 0#32 = xOfR opcode opt (reg + (vvvvv <<< 7)) rm 0#32 := rfl
+  rw [hx]
+  unfold xOfR
+  rcases hopt with h | h | h <;> subst h
+  all_goals
+    simp [emitVexEvexR, vexEvexROptions, hpe, hk, bind, Except.bind, pure, Except.pure, modrmRR, oZMask, oER, oSAE, oEvex, oVex3, oVex]
+    split
+    · split <;> first | rfl | simp_all
+    · first | rfl | simp_all
+
+theorem emitVexEvexR_evexopt32 (c : Model.X86.Ctx) (opcode reg vvvvv rm : BitVec 32) (imm : BitVec 64) (n : Nat)
+    (hpe : c.preferEvex = false) (hk : c.extraId = 0#32) :
+    emitVexEvexR c opcode (0x80000000#32 ||| oEvex) (reg + (vvvvv <<< 7)) rm imm n =
+      .ok (le32 (evexWord (xR opcode 0x80000000#32 reg vvvvv rm 0#32) opcode) ++ [opcode.truncate 8] ++
+            ([modrmRR (reg + (vvvvv <<< 7)) rm] ++ emitImmByteOrDword imm n)) := by
+  have h1 : xR opcode (0x80000000#32 ||| oEvex) reg vvvvv rm 0#32 &&& 0x00D78150#32 ≠ 0#32 := by
+    simp only [xR, extractLLMMMMM, kLL_Mask, kMM_Mask, oEvex]; bv_decide
+  have h2 : evexWord (xR opcode (0x80000000#32 ||| oEvex) reg vvvvv rm 0#32) opcode = evexWord (xR opcode 0x80000000#32 reg vvvvv rm 0#32) opcode := by
+    simp only [evexWord, xR, extractLLMMMMM, kLL_Mask, kMM_Mask, oEvex]; bv_decide
+  rw [emitVexEvexR_branchesO32 c _ opcode reg vvvvv rm imm n (Or.inl rfl) hpe hk, if_pos h1, h2]
+
+theorem emitVexEvexR_vex3opt32 (c : Model.X86.Ctx) (opcode reg vvvvv rm : BitVec 32) (imm : BitVec 64) (n : Nat)
+    (hpe : c.preferEvex = false) (hk : c.extraId = 0#32) (hnev : ¬ (xR opcode 0x80000000#32 reg vvvvv rm 0#32 &&& 0x00D78150#32 ≠ 0#32)) :
+    emitVexEvexR c opcode (0x80000000#32 ||| oVex3) (reg + (vvvvv <<< 7)) rm imm n =
+      .ok (le32 (vex3Word (vexPrep (xR opcode 0x80000000#32 reg vvvvv rm 0#32) opcode 0x80000000#32) opcode) ++
+            ([modrmRR (reg + (vvvvv <<< 7)) rm] ++ emitImmByteOrDword imm n)) := by
+  have h0 : xR opcode (0x80000000#32 ||| oVex3) reg vvvvv rm 0#32 = xR opcode 0x80000000#32 reg vvvvv rm 0#32 := by
+    simp only [xR, extractLLMMMMM, kLL_Mask, kMM_Mask, oEvex, oVex3]; bv_decide
+  have h1 : vexPrep (xR opcode 0x80000000#32 reg vvvvv rm 0#32) opcode (0x80000000#32 ||| oVex3) &&& 0x8000803E#32 ≠ 0#32 := by
+    simp only [vexPrep, oVex3]; bv_decide
+  have h2 : vex3Word (vexPrep (xR opcode 0x80000000#32 reg vvvvv rm 0#32) opcode (0x80000000#32 ||| oVex3)) opcode =
+      vex3Word (vexPrep (xR opcode 0x80000000#32 reg vvvvv rm 0#32) opcode 0x80000000#32) opcode := by
+    simp only [vex3Word, vexPrep, vexPrefixTable, oVex3]; bv_decide
+  rw [emitVexEvexR_branchesO32 c _ opcode reg vvvvv rm imm n (Or.inr (Or.inl rfl)) hpe hk, h0, if_neg hnev, if_pos h1, h2]
+
+theorem emitVexEvexR_vexopt32 (c : Model.X86.Ctx) (opcode opReg rbReg : BitVec 32) (imm : BitVec 64) (n : Nat) (hpe : c.preferEvex = false) :
+    emitVexEvexR c opcode (0x80000000#32 ||| oVex) opReg rbReg imm n = emitVexEvexR c opcode 0x80000000#32 opReg rbReg imm n := by
+  have e1 : extractLLMMMMM opcode 0x80000800#32 = extractLLMMMMM opcode 0x80000000#32 := by simp only [extractLLMMMMM, oEvex]; bv_decide
+  simp [emitVexEvexR, vexEvexROptions, oVex, e1, oZMask, oER, oSAE, oVex3, vexPrep, hpe]
+
+theorem vexR_rvm_formOk_evexO32 (c : Model.X86.Ctx) (ctx : Spec.X86.Ctx) (rule : Rule) (opcode reg vvvvv rm : BitVec 32)
+    (k0 k1 k2 : RegKind) (f0 f1 f2 : FormOp)
+    (hpe : c.preferEvex = false) (hk : c.extraId = 0#32) (hm64 : ctx.mode64 = false) (hmode : (rule.modes &&& 1 != 0) = true)
+    (hr : reg < 8#32) (hv : vvvvv < 8#32) (hm : rm < 8#32) (hxop : opcode &&& 0x800#32 = 0#32)
+    (hk0 : PlainKind k0) (hk1 : PlainKind k1) (hk2 : PlainKind k2)
+    (R : VexRule rule 0) (hs : rule.space = 2) (A : RowAgree rule opcode true)
+    (hf0 : f0.role = .reg) (hf1 : f1.role = .vvvv) (hf2 : f2.role = .rm)
+    (hal : alignOps rule.oszEff rule.ops [.reg k0 reg.toNat, .reg k1 vvvvv.toNat, .reg k2 rm.toNat] =
+           some [(f0, some (.reg k0 reg.toNat)), (f1, some (.reg k1 vvvvv.toNat)), (f2, some (.reg k2 rm.toNat))]) :
+    ∃ bytes, emitVexEvexR c opcode (0x80000000#32 ||| oEvex) (reg + (vvvvv <<< 7)) rm 0 0 = .ok bytes ∧
+      formOk ctx rule [.reg k0 reg.toNat, .reg k1 vvvvv.toNat, .reg k2 rm.toNat] {} bytes = true := by
+  rw [emitVexEvexR_evexopt32 c opcode reg vvvvv rm 0 0 hpe hk]
+  refine ⟨_, rfl, ?_⟩
+  obtain ⟨p, hp, P, h0, h1, h2, -⟩ := evexR_parsed32 rule opcode reg vvvvv rm [] hr hv hm hxop R hs A
+  simp only [emitImmByteOrDword] at *
+  exact vex_rvm_formOk ctx rule p _ _ k0 k1 k2 f0 f1 f2 _ _ _ (by simpa [hm64] using hmode) hk0 hk1 hk2 R hf0 hf1 hf2 hal (by rw [hm64]; exact hp) P h0 h1 h2
+
+theorem vexR_rvm_formOk_vex3O32 (c : Model.X86.Ctx) (ctx : Spec.X86.Ctx) (rule : Rule) (opcode reg vvvvv rm : BitVec 32)
+    (k0 k1 k2 : RegKind) (f0 f1 f2 : FormOp)
+    (hpe : c.preferEvex = false) (hk : c.extraId = 0#32) (hm64 : ctx.mode64 = false) (hmode : (rule.modes &&& 1 != 0) = true)
+    (hr : reg < 8#32) (hv : vvvvv < 8#32) (hm : rm < 8#32) (hxop : opcode &&& 0x800#32 = 0#32) (hll : opcode &&& 0x40001000#32 = 0#32)
+    (hmm : opcode &&& 0x1F00#32 ≠ 0#32)
+    (hk0 : PlainKind k0) (hk1 : PlainKind k1) (hk2 : PlainKind k2)
+    (R : VexRule rule 0) (hs : rule.space = 1) (A : RowAgree rule opcode false)
+    (hf0 : f0.role = .reg) (hf1 : f1.role = .vvvv) (hf2 : f2.role = .rm)
+    (hal : alignOps rule.oszEff rule.ops [.reg k0 reg.toNat, .reg k1 vvvvv.toNat, .reg k2 rm.toNat] =
+           some [(f0, some (.reg k0 reg.toNat)), (f1, some (.reg k1 vvvvv.toNat)), (f2, some (.reg k2 rm.toNat))]) :
+    ∃ bytes, emitVexEvexR c opcode (0x80000000#32 ||| oVex3) (reg + (vvvvv <<< 7)) rm 0 0 = .ok bytes ∧
+      formOk ctx rule [.reg k0 reg.toNat, .reg k1 vvvvv.toNat, .reg k2 rm.toNat] {} bytes = true := by
+  have hnev : ¬ (xR opcode 0x80000000#32 reg vvvvv rm 0#32 &&& 0x00D78150#32 ≠ 0#32) := by
+    rw [evex_r_chosen_iff opcode 0x80000000#32 reg vvvvv rm 0#32 (by bv_decide) (by bv_decide) (by bv_decide) (by decide) (by decide)]
+    intro h
+    rcases h with h | h | h | h | h | h | h <;> bv_decide
+  rw [emitVexEvexR_vex3opt32 c opcode reg vvvvv rm 0 0 hpe hk hnev]
+  refine ⟨_, rfl, ?_⟩
+  obtain ⟨p, hp, P, h0, h1, h2, -⟩ := vex3R_parsed32 rule opcode reg vvvvv rm [] hr hv hm hxop hll R hs A
+  simp only [emitImmByteOrDword] at *
+  exact vex_rvm_formOk ctx rule p _ _ k0 k1 k2 f0 f1 f2 _ _ _ (by simpa [hm64] using hmode) hk0 hk1 hk2 R hf0 hf1 hf2 hal (by rw [hm64]; exact hp) P h0 h1 h2
+
+theorem vexR_rm_formOk_evexO32 (c : Model.X86.Ctx) (ctx : Spec.X86.Ctx) (rule : Rule) (opcode reg rm : BitVec 32)
+    (k0 k2 : RegKind) (f0 f2 : FormOp)
+    (hpe : c.preferEvex = false) (hk : c.extraId = 0#32) (hm64 : ctx.mode64 = false) (hmode : (rule.modes &&& 1 != 0) = true)
+    (hr : reg < 8#32) (hm : rm < 8#32) (hxop : opcode &&& 0x800#32 = 0#32)
+    (hk0 : PlainKind k0) (hk2 : PlainKind k2)
+    (R : VexRule rule 0) (hs : rule.space = 2) (A : RowAgree rule opcode true)
+    (hf0 : f0.role = .reg) (hf2 : f2.role = .rm)
+    (hal : alignOps rule.oszEff rule.ops [.reg k0 reg.toNat, .reg k2 rm.toNat] =
+           some [(f0, some (.reg k0 reg.toNat)), (f2, some (.reg k2 rm.toNat))]) :
+    ∃ bytes, emitVexEvexR c opcode (0x80000000#32 ||| oEvex) (reg + (0#32 <<< 7)) rm 0 0 = .ok bytes ∧
+      formOk ctx rule [.reg k0 reg.toNat, .reg k2 rm.toNat] {} bytes = true := by
+  rw [emitVexEvexR_evexopt32 c opcode reg 0#32 rm 0 0 hpe hk]
+  refine ⟨_, rfl, ?_⟩
+  obtain ⟨p, hp, P, h0, h1, h2, -⟩ := evexR_parsed32 rule opcode reg 0#32 rm [] hr (by decide) hm hxop R hs A
+  simp only [emitImmByteOrDword] at *
+  exact vex_rm_formOk ctx rule p _ _ k0 k2 f0 f2 _ _ (by simpa [hm64] using hmode) hk0 hk2 R hf0 hf2 hal (by rw [hm64]; exact hp) P h0 h1 h2
+
+theorem vexR_rm_formOk_vex3O32 (c : Model.X86.Ctx) (ctx : Spec.X86.Ctx) (rule : Rule) (opcode reg rm : BitVec 32)
+    (k0 k2 : RegKind) (f0 f2 : FormOp)
+    (hpe : c.preferEvex = false) (hk : c.extraId = 0#32) (hm64 : ctx.mode64 = false) (hmode : (rule.modes &&& 1 != 0) = true)
+    (hr : reg < 8#32) (hm : rm < 8#32) (hxop : opcode &&& 0x800#32 = 0#32) (hll : opcode &&& 0x40001000#32 = 0#32)
+    (hmm : opcode &&& 0x1F00#32 ≠ 0#32)
+    (hk0 : PlainKind k0) (hk2 : PlainKind k2)
+    (R : VexRule rule 0) (hs : rule.space = 1) (A : RowAgree rule opcode false)
+    (hf0 : f0.role = .reg) (hf2 : f2.role = .rm)
+    (hal : alignOps rule.oszEff rule.ops [.reg k0 reg.toNat, .reg k2 rm.toNat] =
+           some [(f0, some (.reg k0 reg.toNat)), (f2, some (.reg k2 rm.toNat))]) :
+    ∃ bytes, emitVexEvexR c opcode (0x80000000#32 ||| oVex3) (reg + (0#32 <<< 7)) rm 0 0 = .ok bytes ∧
+      formOk ctx rule [.reg k0 reg.toNat, .reg k2 rm.toNat] {} bytes = true := by
+  have hnev : ¬ (xR opcode 0x80000000#32 reg 0#32 rm 0#32 &&& 0x00D78150#32 ≠ 0#32) := by
+    rw [evex_r_chosen_iff opcode 0x80000000#32 reg 0#32 rm 0#32 (by bv_decide) (by bv_decide) (by bv_decide) (by decide) (by decide)]
+    intro h
+    rcases h with h | h | h | h | h | h | h <;> bv_decide
+  rw [emitVexEvexR_vex3opt32 c opcode reg 0#32 rm 0 0 hpe hk hnev]
+  refine ⟨_, rfl, ?_⟩
+  obtain ⟨p, hp, P, h0, h1, h2, -⟩ := vex3R_parsed32 rule opcode reg 0#32 rm [] hr (by decide) hm hxop hll R hs A
+  simp only [emitImmByteOrDword] at *
+  exact vex_rm_formOk ctx rule p _ _ k0 k2 f0 f2 _ _ (by simpa [hm64] using hmode) hk0 hk2 R hf0 hf2 hal (by rw [hm64]; exact hp) P h0 h1 h2
+
+theorem vexR_rvmi_formOk_evexO32 (c : Model.X86.Ctx) (ctx : Spec.X86.Ctx) (rule : Rule) (opcode reg vvvvv rm : BitVec 32)
+    (k0 k1 k2 : RegKind) (f0 f1 f2 : FormOp)
+    (hpe : c.preferEvex = false) (hk : c.extraId = 0#32) (hm64 : ctx.mode64 = false) (hmode : (rule.modes &&& 1 != 0) = true)
+    (hr : reg < 8#32) (hv : vvvvv < 8#32) (hm : rm < 8#32) (hxop : opcode &&& 0x800#32 = 0#32)
+    (hk0 : PlainKind k0) (hk1 : PlainKind k1) (hk2 : PlainKind k2)
+    (R : VexRule rule 1) (f3 : FormOp) (imm : BitVec 64) (hf3 : f3.role = .imm) (hib : immBitsOf f3 = 8) (hs : rule.space = 2) (A : RowAgree rule opcode true)
+    (hf0 : f0.role = .reg) (hf1 : f1.role = .vvvv) (hf2 : f2.role = .rm)
+    (hal : alignOps rule.oszEff rule.ops [.reg k0 reg.toNat, .reg k1 vvvvv.toNat, .reg k2 rm.toNat, .imm imm] =
+           some [(f0, some (.reg k0 reg.toNat)), (f1, some (.reg k1 vvvvv.toNat)), (f2, some (.reg k2 rm.toNat)), (f3, some (.imm imm))]) :
+    ∃ bytes, emitVexEvexR c opcode (0x80000000#32 ||| oEvex) (reg + (vvvvv <<< 7)) rm imm 1 = .ok bytes ∧
+      formOk ctx rule [.reg k0 reg.toNat, .reg k1 vvvvv.toNat, .reg k2 rm.toNat, .imm imm] {} bytes = true := by
+  rw [emitVexEvexR_evexopt32 c opcode reg vvvvv rm imm 1 hpe hk]
+  refine ⟨_, rfl, ?_⟩
+  obtain ⟨p, hp, P, h0, h1, h2, hi⟩ := evexR_parsed32 rule opcode reg vvvvv rm [imm.truncate 8] hr hv hm hxop R hs A
+  simp only [emitImmByteOrDword, Nat.one_ne_zero, beq_self_eq_true, ↓reduceIte, show ((1:Nat) == 0) = false from rfl, Bool.false_eq_true] at *
+  exact vex_rvmi_formOk ctx rule p _ _ k0 k1 k2 f0 f1 f2 _ _ _ (by simpa [hm64] using hmode) hk0 hk1 hk2 R f3 imm hf3 hib (by simp [hi]) hf0 hf1 hf2 hal (by rw [hm64]; exact hp) P h0 h1 h2
+
+theorem vexR_rvmi_formOk_vex3O32 (c : Model.X86.Ctx) (ctx : Spec.X86.Ctx) (rule : Rule) (opcode reg vvvvv rm : BitVec 32)
+    (k0 k1 k2 : RegKind) (f0 f1 f2 : FormOp)
+    (hpe : c.preferEvex = false) (hk : c.extraId = 0#32) (hm64 : ctx.mode64 = false) (hmode : (rule.modes &&& 1 != 0) = true)
+    (hr : reg < 8#32) (hv : vvvvv < 8#32) (hm : rm < 8#32) (hxop : opcode &&& 0x800#32 = 0#32) (hll : opcode &&& 0x40001000#32 = 0#32)
+    (hmm : opcode &&& 0x1F00#32 ≠ 0#32)
+    (hk0 : PlainKind k0) (hk1 : PlainKind k1) (hk2 : PlainKind k2)
+    (R : VexRule rule 1) (f3 : FormOp) (imm : BitVec 64) (hf3 : f3.role = .imm) (hib : immBitsOf f3 = 8) (hs : rule.space = 1) (A : RowAgree rule opcode false)
+    (hf0 : f0.role = .reg) (hf1 : f1.role = .vvvv) (hf2 : f2.role = .rm)
+    (hal : alignOps rule.oszEff rule.ops [.reg k0 reg.toNat, .reg k1 vvvvv.toNat, .reg k2 rm.toNat, .imm imm] =
+           some [(f0, some (.reg k0 reg.toNat)), (f1, some (.reg k1 vvvvv.toNat)), (f2, some (.reg k2 rm.toNat)), (f3, some (.imm imm))]) :
+    ∃ bytes, emitVexEvexR c opcode (0x80000000#32 ||| oVex3) (reg + (vvvvv <<< 7)) rm imm 1 = .ok bytes ∧
+      formOk ctx rule [.reg k0 reg.toNat, .reg k1 vvvvv.toNat, .reg k2 rm.toNat, .imm imm] {} bytes = true := by
+  have hnev : ¬ (xR opcode 0x80000000#32 reg vvvvv rm 0#32 &&& 0x00D78150#32 ≠ 0#32) := by
+    rw [evex_r_chosen_iff opcode 0x80000000#32 reg vvvvv rm 0#32 (by bv_decide) (by bv_decide) (by bv_decide) (by decide) (by decide)]
+    intro h
+    rcases h with h | h | h | h | h | h | h <;> bv_decide
+  rw [emitVexEvexR_vex3opt32 c opcode reg vvvvv rm imm 1 hpe hk hnev]
+  refine ⟨_, rfl, ?_⟩
+  obtain ⟨p, hp, P, h0, h1, h2, hi⟩ := vex3R_parsed32 rule opcode reg vvvvv rm [imm.truncate 8] hr hv hm hxop hll R hs A
+  simp only [emitImmByteOrDword, Nat.one_ne_zero, beq_self_eq_true, ↓reduceIte, show ((1:Nat) == 0) = false from rfl, Bool.false_eq_true] at *
+  exact vex_rvmi_formOk ctx rule p _ _ k0 k1 k2 f0 f1 f2 _ _ _ (by simpa [hm64] using hmode) hk0 hk1 hk2 R f3 imm hf3 hib (by simp [hi]) hf0 hf1 hf2 hal (by rw [hm64]; exact hp) P h0 h1 h2
+
+theorem vexR_rmi_formOk_evexO32 (c : Model.X86.Ctx) (ctx : Spec.X86.Ctx) (rule : Rule) (opcode reg rm : BitVec 32)
+    (k0 k2 : RegKind) (f0 f2 : FormOp)
+    (hpe : c.preferEvex = false) (hk : c.extraId = 0#32) (hm64 : ctx.mode64 = false) (hmode : (rule.modes &&& 1 != 0) = true)
+    (hr : reg < 8#32) (hm : rm < 8#32) (hxop : opcode &&& 0x800#32 = 0#32)
+    (hk0 : PlainKind k0) (hk2 : PlainKind k2)
+    (R : VexRule rule 1) (f3 : FormOp) (imm : BitVec 64) (hf3 : f3.role = .imm) (hib : immBitsOf f3 = 8) (hs : rule.space = 2) (A : RowAgree rule opcode true)
+    (hf0 : f0.role = .reg) (hf2 : f2.role = .rm)
+    (hal : alignOps rule.oszEff rule.ops [.reg k0 reg.toNat, .reg k2 rm.toNat, .imm imm] =
+           some [(f0, some (.reg k0 reg.toNat)), (f2, some (.reg k2 rm.toNat)), (f3, some (.imm imm))]) :
+    ∃ bytes, emitVexEvexR c opcode (0x80000000#32 ||| oEvex) (reg + (0#32 <<< 7)) rm imm 1 = .ok bytes ∧
+      formOk ctx rule [.reg k0 reg.toNat, .reg k2 rm.toNat, .imm imm] {} bytes = true := by
+  rw [emitVexEvexR_evexopt32 c opcode reg 0#32 rm imm 1 hpe hk]
+  refine ⟨_, rfl, ?_⟩
+  obtain ⟨p, hp, P, h0, h1, h2, hi⟩ := evexR_parsed32 rule opcode reg 0#32 rm [imm.truncate 8] hr (by decide) hm hxop R hs A
+  simp only [emitImmByteOrDword, Nat.one_ne_zero, beq_self_eq_true, ↓reduceIte, show ((1:Nat) == 0) = false from rfl, Bool.false_eq_true] at *
+  exact vex_rmi_formOk ctx rule p _ _ k0 k2 f0 f2 _ _ (by simpa [hm64] using hmode) hk0 hk2 R f3 imm hf3 hib (by simp [hi]) hf0 hf2 hal (by rw [hm64]; exact hp) P h0 h1 h2
+
+theorem vexR_rmi_formOk_vex3O32 (c : Model.X86.Ctx) (ctx : Spec.X86.Ctx) (rule : Rule) (opcode reg rm : BitVec 32)
+    (k0 k2 : RegKind) (f0 f2 : FormOp)
+    (hpe : c.preferEvex = false) (hk : c.extraId = 0#32) (hm64 : ctx.mode64 = false) (hmode : (rule.modes &&& 1 != 0) = true)
+    (hr : reg < 8#32) (hm : rm < 8#32) (hxop : opcode &&& 0x800#32 = 0#32) (hll : opcode &&& 0x40001000#32 = 0#32)
+    (hmm : opcode &&& 0x1F00#32 ≠ 0#32)
+    (hk0 : PlainKind k0) (hk2 : PlainKind k2)
+    (R : VexRule rule 1) (f3 : FormOp) (imm : BitVec 64) (hf3 : f3.role = .imm) (hib : immBitsOf f3 = 8) (hs : rule.space = 1) (A : RowAgree rule opcode false)
+    (hf0 : f0.role = .reg) (hf2 : f2.role = .rm)
+    (hal : alignOps rule.oszEff rule.ops [.reg k0 reg.toNat, .reg k2 rm.toNat, .imm imm] =
+           some [(f0, some (.reg k0 reg.toNat)), (f2, some (.reg k2 rm.toNat)), (f3, some (.imm imm))]) :
+    ∃ bytes, emitVexEvexR c opcode (0x80000000#32 ||| oVex3) (reg + (0#32 <<< 7)) rm imm 1 = .ok bytes ∧
+      formOk ctx rule [.reg k0 reg.toNat, .reg k2 rm.toNat, .imm imm] {} bytes = true := by
+  have hnev : ¬ (xR opcode 0x80000000#32 reg 0#32 rm 0#32 &&& 0x00D78150#32 ≠ 0#32) := by
+    rw [evex_r_chosen_iff opcode 0x80000000#32 reg 0#32 rm 0#32 (by bv_decide) (by bv_decide) (by bv_decide) (by decide) (by decide)]
+    intro h
+    rcases h with h | h | h | h | h | h | h <;> bv_decide
+  rw [emitVexEvexR_vex3opt32 c opcode reg 0#32 rm imm 1 hpe hk hnev]
+  refine ⟨_, rfl, ?_⟩
+  obtain ⟨p, hp, P, h0, h1, h2, hi⟩ := vex3R_parsed32 rule opcode reg 0#32 rm [imm.truncate 8] hr (by decide) hm hxop hll R hs A
+  simp only [emitImmByteOrDword, Nat.one_ne_zero, beq_self_eq_true, ↓reduceIte, show ((1:Nat) == 0) = false from rfl, Bool.false_eq_true] at *
+  exact vex_rmi_formOk ctx rule p _ _ k0 k2 f0 f2 _ _ (by simpa [hm64] using hmode) hk0 hk2 R f3 imm hf3 hib (by simp [hi]) hf0 hf2 hal (by rw [hm64]; exact hp) P h0 h1 h2
+
+theorem front_cls_correct_rvm_evexopt32 (e : Entry) (ch : List Entry) (hch : ch ∈ rvmChunks) (he : e ∈ ch) (hsp : e.rule.space = 2)
+    (c : Model.X86.Ctx) (ctx : Spec.X86.Ctx) (reg vvvvv rm : BitVec 32)
+    (hpe : c.preferEvex = false) (hk : c.extraId = 0#32) (hm64 : ctx.mode64 = false) (hm32 : (e.rule.modes &&& 1 != 0) = true)
+    (hr : reg < 8#32) (hv : vvvvv < 8#32) (hm : rm < 8#32) :
+    ∃ bytes k0 k1 k2, e.kinds = [k0, k1, k2] ∧
+      emitVexEvexR c (finalOp e 0x75) (0x80000000#32 ||| oEvex) (packRegVvvvv reg.toNat vvvvv.toNat) (r32 rm.toNat) 0 0 = .ok bytes ∧
+      formOk ctx e.rule [.reg k0 reg.toNat, .reg k1 vvvvv.toNat, .reg k2 rm.toNat] {} bytes = true := by
+  have hok : entryOkRvm e = true := by
+    have := rvm_entries_ok
+    rw [List.all_eq_true] at this
+    have h2 := this ch hch
+    rw [List.all_eq_true] at h2
+    exact h2 e he
+  unfold entryOkRvm at hok
+  split at hok
+  · rename_i f0 f1 f2 k0 k1 k2 hops hkinds
+    simp only [Bool.and_eq_true, Bool.or_eq_true, beq_iff_eq] at hok
+    obtain ⟨-, hR, hA, -, r0, r1, r2, hS⟩ := hok
+    obtain ⟨R, -⟩ := vexRuleOk_spec _ _ hR
+    obtain ⟨A, hxop, -⟩ := rowAgreeOk_spec _ _ hA
+    obtain ⟨p0, p1, p2, hal⟩ := shapeOk3_spec _ _ _ _ _ _ _ hops hS
+    rw [hsp] at A
+    obtain ⟨bytes, hb, hf⟩ := vexR_rvm_formOk_evexO32 c ctx e.rule (finalOp e 0x75) reg vvvvv rm k0 k1 k2 f0 f1 f2 hpe hk hm64 hm32 hr hv hm hxop
+      p0 p1 p2 R hsp A r0 r1 r2 (hal _ _ _)
+    refine ⟨bytes, k0, k1, k2, hkinds, ?_, hf⟩
+    rw [packRegVvvvv_eq reg vvvvv (by bv_decide) (by bv_decide)]
+    simpa [r32] using hb
+  · simp at hok
+
+theorem front_cls_correct_rvm_vex3opt32 (e : Entry) (ch : List Entry) (hch : ch ∈ rvmChunks) (he : e ∈ ch) (hsp : e.rule.space = 1)
+    (c : Model.X86.Ctx) (ctx : Spec.X86.Ctx) (reg vvvvv rm : BitVec 32)
+    (hpe : c.preferEvex = false) (hk : c.extraId = 0#32) (hm64 : ctx.mode64 = false) (hm32 : (e.rule.modes &&& 1 != 0) = true)
+    (hr : reg < 8#32) (hv : vvvvv < 8#32) (hm : rm < 8#32) :
+    ∃ bytes k0 k1 k2, e.kinds = [k0, k1, k2] ∧
+      emitVexEvexR c (finalOp e 0x75) (0x80000000#32 ||| oVex3) (packRegVvvvv reg.toNat vvvvv.toNat) (r32 rm.toNat) 0 0 = .ok bytes ∧
+      formOk ctx e.rule [.reg k0 reg.toNat, .reg k1 vvvvv.toNat, .reg k2 rm.toNat] {} bytes = true := by
+  have hok : entryOkRvm e = true := by
+    have := rvm_entries_ok
+    rw [List.all_eq_true] at this
+    have h2 := this ch hch
+    rw [List.all_eq_true] at h2
+    exact h2 e he
+  unfold entryOkRvm at hok
+  split at hok
+  · rename_i f0 f1 f2 k0 k1 k2 hops hkinds
+    simp only [Bool.and_eq_true, Bool.or_eq_true, beq_iff_eq] at hok
+    obtain ⟨-, hR, hA, -, r0, r1, r2, hS⟩ := hok
+    obtain ⟨R, -⟩ := vexRuleOk_spec _ _ hR
+    obtain ⟨A, hxop, hvx⟩ := rowAgreeOk_spec _ _ hA
+    obtain ⟨hll, hmm⟩ := hvx hsp
+    obtain ⟨p0, p1, p2, hal⟩ := shapeOk3_spec _ _ _ _ _ _ _ hops hS
+    have A' : RowAgree e.rule (finalOp e 0x75) false := by rw [hsp] at A; exact A
+    obtain ⟨bytes, hb, hf⟩ := vexR_rvm_formOk_vex3O32 c ctx e.rule (finalOp e 0x75) reg vvvvv rm k0 k1 k2 f0 f1 f2 hpe hk hm64 hm32 hr hv hm hxop hll hmm
+      p0 p1 p2 R hsp A' r0 r1 r2 (hal _ _ _)
+    refine ⟨bytes, k0, k1, k2, hkinds, ?_, hf⟩
+    rw [packRegVvvvv_eq reg vvvvv (by bv_decide) (by bv_decide)]
+    simpa [r32] using hb
+  · simp at hok
+
+theorem front_cls_correct_rm_opt32 (opt : BitVec 32) (e : Entry) (ch : List Entry) (hch : ch ∈ rmChunks) (he : e ∈ ch)
+    (c : Model.X86.Ctx) (ctx : Spec.X86.Ctx) (reg rm : BitVec 32)
+    (hpe : c.preferEvex = false) (hk : c.extraId = 0#32) (hm64 : ctx.mode64 = false) (hm32 : (e.rule.modes &&& 1 != 0) = true)
+    (hids : (opt = 0x80000000#32 ||| oEvex ∧ e.rule.space = 2 ∧ reg < 8#32 ∧ rm < 8#32) ∨
+            (opt = 0x80000000#32 ||| oVex3 ∧ e.rule.space = 1 ∧ reg < 8#32 ∧ rm < 8#32)) :
+    ∃ bytes k0 k2, e.kinds = [k0, k2] ∧
+      emitVexEvexR c (finalOp e 0x6B) opt (r32 reg.toNat) (r32 rm.toNat) 0 0 = .ok bytes ∧
+      formOk ctx e.rule [.reg k0 reg.toNat, .reg k2 rm.toNat] {} bytes = true := by
+  have hok := mem_chunks_ok rm_entries_ok e ch hch he
+  unfold entryOkRm at hok
+  split at hok
+  · rename_i f0 f2 k0 k2 hops hkinds
+    simp only [Bool.and_eq_true, Bool.or_eq_true, beq_iff_eq] at hok
+    obtain ⟨-, hR, hA, -, r0, r2, hS⟩ := hok
+    obtain ⟨R, -⟩ := vexRuleOk_spec _ _ hR
+    obtain ⟨A, hxop, hvx⟩ := rowAgreeOk_spec _ _ hA
+    obtain ⟨p0, p2, m0, m2⟩ := shapeOk2_spec _ _ _ _ _ hS
+    have hal : ∀ i0 i2, alignOps e.rule.oszEff e.rule.ops [.reg k0 i0, .reg k2 i2] = some [(f0, some (.reg k0 i0)), (f2, some (.reg k2 i2))] := by
+      intro i0 i2; rw [hops]; exact alignOps2 _ _ _ _ _ (m0 i0) (m2 i2)
+    have e0 : reg + ((0#32 : BitVec 32) <<< 7) = reg := by bv_decide
+    rcases hids with ⟨rfl, hsp, hr, hm⟩ | ⟨rfl, hsp, hr, hm⟩
+    · rw [hsp] at A
+      obtain ⟨bytes, hb, hf⟩ := vexR_rm_formOk_evexO32 c ctx e.rule (finalOp e 0x6B) reg rm k0 k2 f0 f2 hpe hk hm64 hm32 hr hm hxop p0 p2 R hsp A r0 r2 (hal _ _)
+      refine ⟨bytes, k0, k2, hkinds, ?_, hf⟩
+      rw [e0] at hb
+      simpa [r32] using hb
+    · obtain ⟨hll, hmm⟩ := hvx hsp
+      have A' : RowAgree e.rule (finalOp e 0x6B) false := by rw [hsp] at A; exact A
+      obtain ⟨bytes, hb, hf⟩ := vexR_rm_formOk_vex3O32 c ctx e.rule (finalOp e 0x6B) reg rm k0 k2 f0 f2 hpe hk hm64 hm32 hr hm hxop hll hmm p0 p2 R hsp A' r0 r2 (hal _ _)
+      refine ⟨bytes, k0, k2, hkinds, ?_, hf⟩
+      rw [e0] at hb
+      simpa [r32] using hb
+  · simp at hok
+
+theorem front_cls_correct_rvmi_opt32 (opt : BitVec 32) (e : Entry) (ch : List Entry) (hch : ch ∈ rvmiChunks) (he : e ∈ ch)
+    (c : Model.X86.Ctx) (ctx : Spec.X86.Ctx) (reg vvvvv rm : BitVec 32) (imm : BitVec 64)
+    (hpe : c.preferEvex = false) (hk : c.extraId = 0#32) (hm64 : ctx.mode64 = false) (hm32 : (e.rule.modes &&& 1 != 0) = true)
+    (himm : ∀ f3, e.rule.ops[3]? = some f3 → formOpMatches e.rule.oszEff f3 (.imm imm) = true)
+    (hids : (opt = 0x80000000#32 ||| oEvex ∧ e.rule.space = 2 ∧ reg < 8#32 ∧ vvvvv < 8#32 ∧ rm < 8#32) ∨
+            (opt = 0x80000000#32 ||| oVex3 ∧ e.rule.space = 1 ∧ reg < 8#32 ∧ vvvvv < 8#32 ∧ rm < 8#32)) :
+    ∃ bytes k0 k1 k2, e.kinds = [k0, k1, k2] ∧
+      emitVexEvexR c (finalOp e 0x7C) opt (packRegVvvvv reg.toNat vvvvv.toNat) (r32 rm.toNat) imm 1 = .ok bytes ∧
+      formOk ctx e.rule [.reg k0 reg.toNat, .reg k1 vvvvv.toNat, .reg k2 rm.toNat, .imm imm] {} bytes = true := by
+  have hok := mem_chunks_ok rvmi_entries_ok e ch hch he
+  unfold entryOkRvmi at hok
+  split at hok
+  · rename_i f0 f1 f2 f3 k0 k1 k2 hops hkinds
+    simp only [Bool.and_eq_true, Bool.or_eq_true, beq_iff_eq] at hok
+    obtain ⟨-, hR, hA, -, r0, r1, r2, r3, hib, hS⟩ := hok
+    obtain ⟨R, -⟩ := vexRuleOk_spec _ _ hR
+    obtain ⟨A, hxop, hvx⟩ := rowAgreeOk_spec _ _ hA
+    obtain ⟨p0, p1, p2, m0, m1, m2⟩ := shapeOk3_specB _ _ _ _ _ _ _ hS
+    have m3 : formOpMatches e.rule.oszEff f3 (.imm imm) = true := himm f3 (by rw [hops]; rfl)
+    have hal : ∀ i0 i1 i2, alignOps e.rule.oszEff e.rule.ops [.reg k0 i0, .reg k1 i1, .reg k2 i2, .imm imm] =
+        some [(f0, some (.reg k0 i0)), (f1, some (.reg k1 i1)), (f2, some (.reg k2 i2)), (f3, some (.imm imm))] := by
+      intro i0 i1 i2; rw [hops]; exact alignOps4 _ _ _ _ _ _ _ _ _ (m0 i0) (m1 i1) (m2 i2) m3
+    rcases hids with ⟨rfl, hsp, hr, hv, hm⟩ | ⟨rfl, hsp, hr, hv, hm⟩
+    · rw [hsp] at A
+      obtain ⟨bytes, hb, hf⟩ := vexR_rvmi_formOk_evexO32 c ctx e.rule (finalOp e 0x7C) reg vvvvv rm k0 k1 k2 f0 f1 f2 hpe hk hm64 hm32 hr hv hm hxop
+        p0 p1 p2 R f3 imm r3 hib hsp A r0 r1 r2 (hal _ _ _)
+      refine ⟨bytes, k0, k1, k2, hkinds, ?_, hf⟩
+      rw [packRegVvvvv_eq reg vvvvv (by bv_decide) (by bv_decide)]
+      simpa [r32] using hb
+    · obtain ⟨hll, hmm⟩ := hvx hsp
+      have A' : RowAgree e.rule (finalOp e 0x7C) false := by rw [hsp] at A; exact A
+      obtain ⟨bytes, hb, hf⟩ := vexR_rvmi_formOk_vex3O32 c ctx e.rule (finalOp e 0x7C) reg vvvvv rm k0 k1 k2 f0 f1 f2 hpe hk hm64 hm32 hr hv hm hxop hll hmm
+        p0 p1 p2 R f3 imm r3 hib hsp A' r0 r1 r2 (hal _ _ _)
+      refine ⟨bytes, k0, k1, k2, hkinds, ?_, hf⟩
+      rw [packRegVvvvv_eq reg vvvvv (by bv_decide) (by bv_decide)]
+      simpa [r32] using hb
+  · simp at hok
+
+theorem front_cls_correct_rmi_opt32 (opt : BitVec 32) (e : Entry) (ch : List Entry) (hch : ch ∈ rmiChunks) (he : e ∈ ch)
+    (c : Model.X86.Ctx) (ctx : Spec.X86.Ctx) (reg rm : BitVec 32) (imm : BitVec 64)
+    (hpe : c.preferEvex = false) (hk : c.extraId = 0#32) (hm64 : ctx.mode64 = false) (hm32 : (e.rule.modes &&& 1 != 0) = true)
+    (himm : ∀ f3, e.rule.ops[2]? = some f3 → formOpMatches e.rule.oszEff f3 (.imm imm) = true)
+    (hids : (opt = 0x80000000#32 ||| oEvex ∧ e.rule.space = 2 ∧ reg < 8#32 ∧ rm < 8#32) ∨
+            (opt = 0x80000000#32 ||| oVex3 ∧ e.rule.space = 1 ∧ reg < 8#32 ∧ rm < 8#32)) :
+    ∃ bytes k0 k2, e.kinds = [k0, k2] ∧
+      emitVexEvexR c (finalOp e 0x71) opt (r32 reg.toNat) (r32 rm.toNat) imm 1 = .ok bytes ∧
+      formOk ctx e.rule [.reg k0 reg.toNat, .reg k2 rm.toNat, .imm imm] {} bytes = true := by
+  have hok := mem_chunks_ok rmi_entries_ok e ch hch he
+  unfold entryOkRmi at hok
+  split at hok
+  · rename_i f0 f2 f3 k0 k2 hops hkinds
+    simp only [Bool.and_eq_true, Bool.or_eq_true, beq_iff_eq] at hok
+    obtain ⟨-, hR, hA, -, r0, r2, r3, hib, hS⟩ := hok
+    obtain ⟨R, -⟩ := vexRuleOk_spec _ _ hR
+    obtain ⟨A, hxop, hvx⟩ := rowAgreeOk_spec _ _ hA
+    obtain ⟨p0, p2, m0, m2⟩ := shapeOk2_spec _ _ _ _ _ hS
+    have m3 : formOpMatches e.rule.oszEff f3 (.imm imm) = true := himm f3 (by rw [hops]; rfl)
+    have hal : ∀ i0 i2, alignOps e.rule.oszEff e.rule.ops [.reg k0 i0, .reg k2 i2, .imm imm] =
+        some [(f0, some (.reg k0 i0)), (f2, some (.reg k2 i2)), (f3, some (.imm imm))] := by
+      intro i0 i2; rw [hops]; exact alignOps3i _ _ _ _ _ _ _ (m0 i0) (m2 i2) m3
+    have e0 : reg + ((0#32 : BitVec 32) <<< 7) = reg := by bv_decide
+    rcases hids with ⟨rfl, hsp, hr, hm⟩ | ⟨rfl, hsp, hr, hm⟩
+    · rw [hsp] at A
+      obtain ⟨bytes, hb, hf⟩ := vexR_rmi_formOk_evexO32 c ctx e.rule (finalOp e 0x71) reg rm k0 k2 f0 f2 hpe hk hm64 hm32 hr hm hxop p0 p2 R f3 imm r3 hib hsp A r0 r2 (hal _ _)
+      refine ⟨bytes, k0, k2, hkinds, ?_, hf⟩
+      rw [e0] at hb
+      simpa [r32] using hb
+    · obtain ⟨hll, hmm⟩ := hvx hsp
+      have A' : RowAgree e.rule (finalOp e 0x71) false := by rw [hsp] at A; exact A
+      obtain ⟨bytes, hb, hf⟩ := vexR_rmi_formOk_vex3O32 c ctx e.rule (finalOp e 0x71) reg rm k0 k2 f0 f2 hpe hk hm64 hm32 hr hm hxop hll hmm p0 p2 R f3 imm r3 hib hsp A' r0 r2 (hal _ _)
+      refine ⟨bytes, k0, k2, hkinds, ?_, hf⟩
+      rw [e0] at hb
+      simpa [r32] using hb
   · simp at hok
 
 end AsmjitVerif.Props.C01
